@@ -14,6 +14,7 @@
 mod fam_buffers;
 mod fam_cycles;
 mod fam_driver;
+mod fam_files;
 mod fam_options;
 mod fam_preproc;
 mod fam_wire;
@@ -82,6 +83,7 @@ pub fn make_family(name: &str) -> Option<Box<dyn Family>> {
         "preproc" => Some(Box::new(fam_preproc::Preproc::default())),
         "cycles" => Some(Box::new(fam_cycles::Cycles::default())),
         "driver" => Some(Box::new(fam_driver::Driver::default())),
+        "files" => Some(Box::new(fam_files::Files::default())),
         "wire" => Some(Box::new(fam_wire::Wire::default())),
         _ => None,
     }
